@@ -1164,6 +1164,11 @@ func (x *Exec) simple(in ssa.Instruction, fr *frame, h *Heap) bool {
 		z := x.zero(st.Elem())
 		if z.k == 'I' {
 			z.prov = "zero"
+			// a slice that this function fills by index (s[i] = v): whether every
+			// slot is overwritten is index arithmetic — its zero slots are "zero?"
+			if filledByIndex(in, 0) {
+				z.prov = "zero?"
+			}
 		}
 		switch {
 		case lv.nk && lv.n == 0:
@@ -1411,10 +1416,15 @@ func (x *Exec) store(addr, val AV, h *Heap, in ssa.Instruction) {
 				o.elems[addr.idx] = val
 			} else if addr.idx == -1 {
 				for i := range o.elems {
+					o.elems[i].prov = overwrittenZero(o.elems[i].prov)
 					o.elems[i] = joinAV(o.elems[i], val)
 				}
 			}
 		case 'a':
+			// a store by index into a pre-sized slice: its zero slots become
+			// "zero?" (possibly overwritten — whether all of them are is index
+			// arithmetic); a slice that is only appended to keeps its zero slots
+			o.join.prov = overwrittenZero(o.join.prov)
 			o.join = joinAV(o.join, val)
 			if val.k == 'I' && (val.atoms&(ABad|AExpref|AInterp) != 0 || val.bad) {
 				o.bad = true
@@ -1894,4 +1904,46 @@ func (x *Exec) widenAfter() int {
 		return 400
 	}
 	return 8
+}
+
+// overwrittenZero: the provenance with the component "zero" renamed "zero?".
+func overwrittenZero(p prov) prov {
+	if p == "" {
+		return p
+	}
+	parts := strings.Split(string(p), "+")
+	for i, x := range parts {
+		if x == "zero" {
+			parts[i] = "zero?"
+		}
+	}
+	sort.Strings(parts)
+	return prov(strings.Join(parts, "+"))
+}
+
+// filledByIndex: some element of the slice value v (or of a phi it flows into)
+// is stored by index in the same function.
+func filledByIndex(v ssa.Value, depth int) bool {
+	refs := v.Referrers()
+	if refs == nil || depth > 2 {
+		return false
+	}
+	for _, rf := range *refs {
+		switch rf := rf.(type) {
+		case *ssa.IndexAddr:
+			if rf.X != v || rf.Referrers() == nil {
+				continue
+			}
+			for _, rr := range *rf.Referrers() {
+				if st, ok := rr.(*ssa.Store); ok && st.Addr == rf {
+					return true
+				}
+			}
+		case *ssa.Phi:
+			if filledByIndex(rf, depth+1) {
+				return true
+			}
+		}
+	}
+	return false
 }
